@@ -46,7 +46,14 @@ func GoPttLock(file *os.File, filename string, offset int64, theSize uintptr) (e
 		return err
 	}
 
-	return pttLock(file, offset, theSize, syscall.F_WRLCK)
+	err = pttLock(file, offset, theSize, syscall.F_WRLCK)
+	if err != nil {
+		// the caller does not unlock after a failed lock.
+		_ = unlockFD(filenameOffset)
+		return err
+	}
+
+	return nil
 }
 
 // GoPttUnlock
@@ -70,7 +77,14 @@ func GoFlock(fd uintptr, filename string) (err error) {
 		return err
 	}
 
-	return syscall.Flock(int(fd), syscall.LOCK_EX)
+	err = syscall.Flock(int(fd), syscall.LOCK_EX)
+	if err != nil {
+		// the caller does not unlock after a failed lock.
+		_ = unlockFD(filename)
+		return err
+	}
+
+	return nil
 }
 
 // GoFlock
@@ -83,7 +97,14 @@ func GoFlockExNb(fd uintptr, filename string) (err error) {
 		return err
 	}
 
-	return syscall.Flock(int(fd), syscall.LOCK_EX|syscall.LOCK_NB)
+	err = syscall.Flock(int(fd), syscall.LOCK_EX|syscall.LOCK_NB)
+	if err != nil {
+		// the caller does not unlock after a failed lock.
+		_ = unlockFD(filename)
+		return err
+	}
+
+	return nil
 }
 
 // GoFunlock
